@@ -132,6 +132,14 @@ func (f *formatter) WriteDescription(s string) *formatter {
 		return f
 	}
 
+	if !blockStringSafe(s) {
+		// A block string would not give this text back (it strips blank first and last
+		// lines and common indentation, and cannot hold a triple quote or control
+		// characters verbatim): print a quoted string instead.
+		f.WriteString((&ast.Value{Kind: ast.StringValue, Raw: s}).String()).WriteNewline()
+		return f
+	}
+
 	f.WriteString(`"""`)
 	ss := strings.Split(s, "\n")
 	f.WriteNewline()
@@ -142,6 +150,30 @@ func (f *formatter) WriteDescription(s string) *formatter {
 	f.WriteString(`"""`).WriteNewline()
 
 	return f
+}
+
+// blockStringSafe reports whether s, written line by line between triple quotes,
+// is read back unchanged.
+func blockStringSafe(s string) bool {
+	if strings.Contains(s, `"""`) {
+		return false
+	}
+	for _, r := range s {
+		if r < 0x20 && r != '\t' && r != '\n' {
+			return false
+		}
+	}
+	lines := strings.Split(s, "\n")
+	blank := func(l string) bool { return strings.Trim(l, " \t") == "" }
+	if blank(lines[0]) || blank(lines[len(lines)-1]) {
+		return false
+	}
+	for _, l := range lines {
+		if !blank(l) && l[0] != ' ' && l[0] != '\t' {
+			return true // no common indentation to strip
+		}
+	}
+	return false
 }
 
 func (f *formatter) IncrementIndent() {
